@@ -23,6 +23,7 @@ from __future__ import annotations
 
 import warnings
 
+import pandas as pd
 from hypothesis import strategies as st
 
 from vf import frames as F
@@ -82,7 +83,19 @@ def flags(ops, case):
             o["op"] == "filter" and any(n.get("e") == "meth" and n.get("m") in D_SEQ for n in D.walk(o["pred"])) and any(q["op"] == "filter" for q in ops[:i])
             for i, o in enumerate(ops)
         ),
+        # string concatenation `str column + "literal"` somewhere in the program (pandas evaluates it to OBJECT dtype on
+        # a zero-row str series and to str on any other, so a partition without rows yields another dtype)
+        str_plus_literal=any(
+            n.get("e") == "bin" and n.get("op") == "add" and isinstance(n.get("r"), dict) and n["r"].get("e") == "lit" and isinstance(n["r"].get("v"), str)
+            for n in D.walk(ops)
+        ),
         assign_twice=len(set(assigned)) < len(assigned),
+        # a column converted with astype('category') (lazily: unknown categories; computed: per-partition categories)
+        # in a frame that a LATER step aligns with an object of another partitioning
+        astype_category_then_other=any(
+            o["op"] == "astype" and "category" in dict(o["dtypes"].get("dict", [])).values() and any(D.uses(q, "other") for q in ops[i + 1:])
+            for i, o in enumerate(ops)
+        ),
         assign_other_then=any(o["op"] == "assign" and D.uses(o, "other") for o in head),
         # a series of another collection / of the unfiltered frame assigned into a frame that may have an
         # empty partition (one was empty from the start, or a filter ran before)
@@ -127,7 +140,10 @@ def check(spec):
             other=envp.used_other,
             obj_col=any(c["kind"] == "obj" for c in spec["frame"]["columns"]),
             zero_rows=len(case.pdf) == 0,
+            # the pandas result has no rows (although the input may have some)
+            empty_result=isinstance(want, (pd.Series, pd.DataFrame)) and len(want) == 0,
             str_accessor=any(f.startswith("str.") for f in feats),
+            align_shuffle=False,
             **flags(ops, case),
         )
         loose = False
@@ -141,6 +157,16 @@ def check(spec):
             if unknown and not case.unique_index:
                 raise Reject("alignment across partitionings with unknown divisions and duplicate labels")
             loose = unknown
+            # the alignment has to repartition by hash (shuffle) because some operand has unknown divisions
+            sig["align_shuffle"] = loose
+            if loose:
+                # after such an alignment the row order is not promised (see the module docstring), so a LATER step
+                # that looks at neighbouring rows (shift/diff/ffill/bfill) legitimately sees other neighbours than
+                # pandas: its values are outside the property.  (The same step, or an earlier one, is fine: the
+                # neighbour-dependent expression is then evaluated on the still ordered input.)
+                first = min(i for i, o in enumerate(ops) if D.uses(o, "other"))
+                if any(n.get("e") == "meth" and n.get("m") in D_SEQ for o in ops[first + 1:] for n in D.walk(o)):
+                    raise Reject("neighbour-dependent step after an alignment that does not promise row order")
         try:
             with impl("pipeline", **sig):
                 res = D.run_pipeline(case.ddf, ops, envd)
